@@ -46,7 +46,7 @@ func payload(n int) []byte {
 	return b
 }
 
-func one(disk bool, dir string) (string, map[string]interface{}) {
+func one(disk bool, dir string, capMix bool) (string, map[string]interface{}) {
 	r := cfg.Rng
 	var st storage.Storage
 	if disk {
@@ -75,7 +75,12 @@ func one(disk bool, dir string) (string, map[string]interface{}) {
 		for d := r.Intn(3); d > 0; d-- {
 			ssid = append(ssid, levels[r.Intn(len(levels))])
 		}
-		m := message.New(ssid, []byte("ch"), payload(vlib.Pick(r, 1, 5, 40, 40, 200, 30000)))
+		size := vlib.Pick(r, 1, 5, 40, 40, 200, 30000)
+		if capMix { // one channel, small and large payloads mixed: the reply-size cap is crossed in the middle of a page
+			ssid = message.Ssid{5, 9}
+			size = vlib.Pick(r, 2, 2, 2, 20000, 30000, 40000)
+		}
+		m := message.New(ssid, []byte("ch"), payload(size))
 		age := int64(vlib.Pick(r, 0, 1, 1, 2, 2, 3, 10, 100, 5000))
 		m.ID.SetTime(now - age)
 		switch r.Intn(6) {
@@ -119,6 +124,13 @@ func one(disk bool, dir string) (string, map[string]interface{}) {
 		case 2:
 			from = now - 3
 			until = now - 1
+			if r.Intn(3) == 0 { // a one-second window, or an inverted one
+				from = now - int64(vlib.Pick(r, 0, 1, 2, 3, 10))
+				until = from - int64(vlib.Pick(r, 0, 0, 1, 5))
+			}
+		}
+		if capMix && r.Intn(3) != 0 {
+			ssid = message.Ssid{5, 9}
 		}
 		limit := vlib.Pick(r, 0, 1, 1, 2, 3, 5, 100, 100000)
 		var start message.ID
@@ -236,7 +248,7 @@ func main() {
 	for i := 0; i < 120*cfg.Mult; i++ {
 		disk := i%4 == 3
 		dir := filepath.Join(base, "d"+string(rune('a'+i%26))+string(rune('a'+(i/26)%26)))
-		t, h := one(disk, dir)
+		t, h := one(disk, dir, i%6 == 5)
 		cl := "inmemory"
 		if disk {
 			cl = "ssd"
@@ -249,5 +261,5 @@ func main() {
 			sh.Add(t, map[string]interface{}{"op": "continuation across expiry"}, "lapse", true)
 		}
 	}
-	sh.Finish("stores of 5-30 messages over contracts {5,9,6} x levels {9,5,11,255,0x1ff,0xffffffff} (5/9 and 9/5 collide in the 32-bit key prefix; ids ending in 0xff) depth 1-3, ages 0..5000 s with many per second, ttl short / long / retained / already expired, payloads up to 30000 bytes (reply-size cap); 6-16 queries each: filters with wildcards, shorter and longer than stored channels, windows, limits 0..100000, continuation from ids of the previous answer or any stored id; in-memory provider and (every 4th) the on-disk provider; lapse: stores whose short-lived messages expire between page 1 and the continuation page (real 5 s pause), continuation from the first / last id of page 1; non-trivial: all")
+	sh.Finish("stores of 5-30 messages over contracts {5,9,6} x levels {9,5,11,255,0x1ff,0xffffffff} (5/9 and 9/5 collide in the 32-bit key prefix; ids ending in 0xff) depth 1-3, ages 0..5000 s with many per second, ttl short / long / retained / already expired, payloads up to 30000 bytes (reply-size cap); every 6th store on one channel with payloads of 2 / 20000 / 30000 / 40000 bytes mixed (the cap is crossed in the middle of a page); one-second and inverted windows; 6-16 queries each: filters with wildcards, shorter and longer than stored channels, windows, limits 0..100000, continuation from ids of the previous answer or any stored id; in-memory provider and (every 4th) the on-disk provider; lapse: stores whose short-lived messages expire between page 1 and the continuation page (real 5 s pause), continuation from the first / last id of page 1; non-trivial: all")
 }
